@@ -536,11 +536,27 @@ func (s *replicaSelector) onNotLeader(
 		err = bo.Backoff(retry.BoRegionScheduling, newBackoffErrWithRPCContext("no leader", ctx))
 		return err == nil, err
 	}
+	// The hinted peer has already answered NotLeader to this request. Being named again once is normal (it may
+	// have won the election in the meantime), but when it happens repeatedly the stores disagree about the leader,
+	// and following the hints without a pause would retry in a tight loop, because every hint gives the hinted
+	// replica one more attempt.
+	hintedAgain := false
+	for _, r := range s.replicas {
+		if isSamePeer(r.peer, leader) && r.hasFlag(notLeaderFlag) {
+			hintedAgain = r.hasFlag(leaderHintedAgainFlag)
+			r.addFlag(leaderHintedAgainFlag)
+			break
+		}
+	}
 	leaderIdx := s.updateLeader(leader)
 	if leaderIdx >= 0 {
 		if isLeaderCandidate(s.replicas[leaderIdx]) {
 			s.replicaReadType = kv.ReplicaReadLeader
 		}
+	}
+	if hintedAgain {
+		err = bo.Backoff(retry.BoRegionScheduling, newBackoffErrWithRPCContext("not leader hints form a cycle", ctx))
+		return err == nil, err
 	}
 	return true, nil
 }
